@@ -5,6 +5,7 @@ import (
 	"go/ast"
 	"go/token"
 	"go/types"
+	"sort"
 	"strings"
 )
 
@@ -295,6 +296,20 @@ func c20ExtractDelivery(e *ext) {
 							stores = true
 						}
 					}
+					if r0 == "&stored.Spec" || strings.HasPrefix(r1, "other:") && !strings.HasPrefix(r0, "other:") && r0 != "new" {
+						r0, r1 = r1, r0
+					}
+					if fromGet[strings.TrimPrefix(a1, "&")] || fromGet[a1] { // DeepEqual(&stored.Spec, new): same comparison
+						for _, st := range is.Body.List {
+							if as, ok := st.(*ast.AssignStmt); ok && len(as.Lhs) == 1 && len(as.Rhs) == 1 &&
+								types.ExprString(as.Lhs[0]) == updated+".Spec" && types.ExprString(as.Rhs[0]) == "*"+a1 {
+								stores = true
+							}
+						}
+						if a0 == "&"+updated+".Spec" {
+							r0, r1 = "new", "&stored.Spec"
+						}
+					}
 					g = []string{"!" + fn, r0, r1, fmt.Sprintf("stores-new:%v", stores)}
 				}
 			}
@@ -357,6 +372,9 @@ func c20ExtractDelivery(e *ext) {
 								}
 							}
 							args = append(args, t)
+						}
+						if strings.HasSuffix(fn, "DeepEqual") {
+							sort.Strings(args) // DeepEqual is symmetric
 						}
 						shape = append(shape, "skip-if "+fn+"("+strings.Join(args, ", ")+")")
 					} else if u, ok := v.Cond.(*ast.UnaryExpr); ok && u.Op == token.NOT && types.ExprString(u.X) == "ok" {
@@ -470,6 +488,34 @@ func c20ExtractDelivery(e *ext) {
 	}
 	fmt.Fprintf(&e.out, "def syncLockShape : List String := [%s]\n", c20QuoteAll(lockShape("syncNodeSLOSpecIfChanged")))
 	fmt.Fprintf(&e.out, "def cfgCopyLockShape : List String := [%s]\n", c20QuoteAll(lockShape("GetCfgCopy")))
+
+	// ---- IsCfgAvailable: takes the cache lock first; when not yet available it reads the ConfigMap (GetConfigMapForCache)
+	//      and runs syncConfig on it before answering                                                     — ensureAvail
+	availLock, availSync := "missing", false
+	if fd := e.funcDecl("pkg/slo-controller/nodeslo", "SLOCfgHandlerForConfigMapEvent", "IsCfgAvailable"); fd != nil && fd.Body != nil && len(fd.Body.List) > 0 {
+		if es, ok := fd.Body.List[0].(*ast.ExprStmt); ok {
+			if fn, c := callName(es.X); c != nil && strings.Contains(fn, ".lock.") {
+				availLock = fn[strings.LastIndex(fn, ".")+1:]
+			}
+		}
+		sawGet := false
+		for _, st := range fd.Body.List {
+			if as, ok := st.(*ast.AssignStmt); ok && len(as.Rhs) == 1 {
+				if fn, c := callName(as.Rhs[0]); c != nil && strings.HasSuffix(fn, "GetConfigMapForCache") {
+					sawGet = true
+				}
+			}
+			if es, ok := st.(*ast.ExprStmt); ok {
+				if fn, c := callName(es.X); c != nil && strings.HasSuffix(fn, ".syncConfig") && sawGet {
+					availSync = true
+				}
+			}
+		}
+	} else {
+		e.fail("IsCfgAvailable not found")
+	}
+	fmt.Fprintf(&e.out, "def availLockKind : String := %s\n", leanStr(availLock))
+	fmt.Fprintf(&e.out, "def availSyncsOnFirstUse : Bool := %v\n", availSync)
 
 	// ---- triggerAllNodeEnqueue: one q.Add per item of the listed NodeList, no filter in the loop
 	enq := "missing"
